@@ -1,6 +1,7 @@
 package props
 
 import (
+	"bytes"
 	"context"
 	"fmt"
 	"github.com/fullstorydev/grpchan/httpgrpc"
@@ -328,7 +329,7 @@ func checkC01(e *core.Env) {
 		} else if p := spuriousReceiveError(run); p != "" {
 			e.Violate(fmt.Sprintf("delivery/%s/%s/receive-failed", c.Name, sc.Kind), p, witness(run))
 		}
-		}
+	}
 
 	n := e.N(500, 4000)
 	e.Cases("seq", n, func(i int, r *rand.Rand) {
@@ -447,6 +448,28 @@ func checkC01(e *core.Env) {
 		}
 		if string(resp.Payload) != "reply of the caller's next call" || resp.Count != 0 {
 			e.Violate("delivery/http/unary/late-reply-written", fmt.Sprintf("Invoke had returned %v; when the reply body arrived afterwards it was decoded into the caller's reply object, which now reads {%s}", ierr, msgDesc(resp)), nil)
+		}
+	})
+
+	// a unary reply whose first field ends exactly at the library's per-message limit: nothing after it is lost
+	e.Cases("big-unary-reply", e.N(1, 2), func(i int, r *rand.Rand) {
+		limit := int(perMessageLimit)
+		m := &tpb.Message{Payload: make([]byte, limit-5), Count: 77, Headers: map[string][]byte{"after": []byte("the limit")}}
+		body, _ := proto.MarshalOptions{Deterministic: true}.Marshal(m)
+		ch := &httpgrpc.Channel{BaseURL: mustURL("http://big.test/"), Transport: rtFunc(func(rq *http.Request) (*http.Response, error) {
+			h := http.Header{}
+			h.Set("Content-Type", httpgrpc.UnaryRpcContentType_V1)
+			return &http.Response{StatusCode: 200, Header: h, Body: io.NopCloser(bytes.NewReader(body)), ContentLength: int64(len(body)), Request: rq, ProtoMajor: 1, ProtoMinor: 1}, nil
+		})}
+		out := new(tpb.Message)
+		var err error
+		pan := guard(func() { err = ch.Invoke(context.Background(), Unary.Method(), &tpb.Message{}, out) })
+		e.Eval("big-unary-reply", true)
+		w := map[string]any{"reply_len": len(body), "err": fmt.Sprint(err)}
+		if pan != "" {
+			e.Violate("delivery/http/unary/big-reply/panic", trunc(pan, 400), w)
+		} else if err == nil && (out.Count != 77 || string(out.Headers["after"]) != "the limit" || len(out.Payload) != limit-5) {
+			e.Violate("delivery/http/unary/big-reply/altered", fmt.Sprintf("a %d-byte unary reply was accepted but the caller got count=%d headers=%d payload=%d bytes", len(body), out.Count, len(out.Headers), len(out.Payload)), w)
 		}
 	})
 
